@@ -47,6 +47,8 @@ def run_batcher(plan: dict, strategy, max_steps=40000):
     from aws_durable_execution_sdk_python.lambda_service import CheckpointOutput, CheckpointUpdatedExecutionState
 
     evs: list = []
+    if hasattr(strategy, "bind"):
+        strategy.bind(evs)
     item_of_qop: dict = {}      # id(QueuedOperation) -> item id
     item_of_event: dict = {}    # id(shim Event) -> item id
     sizes: dict = {}
@@ -153,6 +155,7 @@ def run_batcher(plan: dict, strategy, max_steps=40000):
         state = st_mod.ExecutionState("arn:x", "0", {}, Client(), batcher_config=cfg)
         st["state"] = state
         st["flag_event"] = state._checkpointing_failed._event
+        state._checkpointing_stopped._hook = lambda op, _e: emit("StopSet") if op == "set" else None
         state._checkpoint_queue._hook = main_hook
         state._overflow_queue._hook = ov_hook
         # observe the batch the consumer is about to send (collect returns it right before the API call)
@@ -206,8 +209,7 @@ def run_batcher(plan: dict, strategy, max_steps=40000):
                 p.start()
             for p in ps:
                 p.join()
-            emit("StopSet")
-            state.stop_checkpointing()
+            state.stop_checkpointing()          # StopSet is logged at the set itself (hook on the stop event)
             ct.join()
 
         sched = ds.Scheduler(strategy, max_steps=max_steps, hang_after=plan.get("hang_after", 6.0))
